@@ -89,6 +89,32 @@ func (x *Exec) enterLoopHeader(cfg *Config, f *Frame, from, to *ssa.BasicBlock, 
 		return false
 	}
 	// entry edge
+	if spec != nil && len(spec.EntryAssume) > 0 {
+		saved := map[*ssa.Phi]Val{}
+		for _, p := range phis {
+			if v, ok := f.regs[p]; ok {
+				saved[p] = v
+			}
+			f.regs[p] = edgeVals[p]
+		}
+		sb := f.block
+		f.block = to
+		env := x.entryEnv(cfg)
+		env.frame = f
+		env.old = cfg.old
+		for _, a := range spec.EntryAssume {
+			st.assume(x.specBool(env, a.E))
+			x.usedTrusted["ASSUMED (not proved) in "+fullKey(x.fn)+": "+a.Text] = true
+		}
+		f.block = sb
+		for _, p := range phis {
+			if v, ok := saved[p]; ok {
+				f.regs[p] = v
+			} else {
+				delete(f.regs, p)
+			}
+		}
+	}
 	evalInv("entry")
 	if spec == nil {
 		x.note("loop %d of %s has no invariant (abstracted with true)", ord, fullKey(x.fn))
@@ -146,7 +172,7 @@ func (x *Exec) enterLoopHeader(cfg *Config, f *Frame, from, to *ssa.BasicBlock, 
 		st.heap["$top"] = ntop
 	}
 	for _, p := range phis {
-		v := x.symbolicOf(st, x.d.Fresh(fmt.Sprintf("L%d!%s", ord, sanitize(p.Comment)), SInt).S, p.Type())
+		v := x.symbolicOf(st, x.d.FreshName(fmt.Sprintf("L%d!%s", ord, sanitize(p.Comment))), p.Type())
 		f.regs[p] = v
 	}
 	if x.c != nil && x.c.Options["old"] == "section" {
